@@ -1,4 +1,6 @@
-/* vector world: C09 (a vector never reports size or capacity it has no storage for) */
+/* vector world: C09 (a vector never reports size or capacity it has no storage for).
+ * The vector is observed through its public functions only (size, capacity, data, at); the canonical key takes the object's raw bytes
+ * without naming a field, so a library that renames or reorders its private members is judged the same way. */
 #include "cstl/vector.h"
 #include "../engine/mc.h"
 #include <sanitizer/asan_interface.h>
@@ -13,7 +15,7 @@ static size_t ES[2]; static int XT[2];
 static char cfgdesc[256];
 
 /* model: per object */
-static struct { size_t es; int xt; size_t size, cap; int vals[MAXSZ + 2]; } M[2];
+static struct { size_t es; int xt, ck; size_t size, cap; int vals[MAXSZ + 2]; } M[2];
 
 enum { O_RESIZE = 1, O_RESERVE, O_SHRINK, O_CLEAR, O_SORT, O_REVERSE, O_SWAP };
 /* size arguments: small absolute values, values relative to size/cap, values around SIZE_MAX and SIZE_MAX/es */
@@ -65,8 +67,8 @@ static int slot_of(const void *obj, int *which)
 {
     int v;
     for (v = 0; v < 2; v++) {
-        uintptr_t b = (uintptr_t)V[v].elem.base, o = (uintptr_t)obj;
-        if (V[v].elem.base && V[v].elem.size && o >= b && o < b + (V[v].cap + 1) * V[v].elem.size && (o - b) % V[v].elem.size == 0) { *which = v; return (int)((o - b) / V[v].elem.size); }
+        uintptr_t b = (uintptr_t)cstl_vector_data(&V[v]), o = (uintptr_t)obj; size_t es = M[v].es;
+        if (b && o >= b && o < b + (cstl_vector_capacity(&V[v]) + 1) * es && (o - b) % es == 0) { *which = v; return (int)((o - b) / es); }
     }
     return -1;
 }
@@ -75,17 +77,17 @@ static void ctor(void *obj, void *priv)
     int v = -1, s = slot_of(obj, &v);
     if (++xt_nctor > 4096) shim_bail(3);                /* watchdog: a runaway construction loop */
     xt_nctor--;
-    if (s < 0 || priv != V[v].elem.xtor.priv) { xt_bad++; xt_nctor++; return; }
+    if (s < 0 || !M[v].xt || priv != (void *)&xt_ctx[M[v].ck]) { xt_bad++; xt_nctor++; return; }
     if (xt_nctor < 64) xt_ctor_slots[xt_nctor] = s;
     xt_nctor++;
-    stamp(obj, s % 2, V[v].elem.size);
+    stamp(obj, s % 2, M[v].es);
 }
 static void dtor(void *obj, void *priv)
 {
     int v = -1, s = slot_of(obj, &v);
     if (++xt_ndtor > 4096) shim_bail(3);
     xt_ndtor--;
-    if (s < 0 || priv != V[v].elem.xtor.priv) { xt_bad++; xt_ndtor++; return; }
+    if (s < 0 || !M[v].xt || priv != (void *)&xt_ctx[M[v].ck]) { xt_bad++; xt_ndtor++; return; }
     if (xt_ndtor < 64) xt_dtor_slots[xt_ndtor] = s;
     xt_ndtor++;
 }
@@ -97,7 +99,7 @@ static void w_init(void)
     for (v = 0; v < 2; v++) {
         memset(&V[v], 0xA5, sizeof V[v]);
         if (XT[v]) cstl_vector_init_complex(&V[v], ES[v], ctor, dtor, &xt_ctx[v]); else cstl_vector_init(&V[v], ES[v]);
-        M[v].es = ES[v]; M[v].xt = XT[v]; M[v].size = 0; M[v].cap = 0;
+        M[v].es = ES[v]; M[v].xt = XT[v]; M[v].ck = v; M[v].size = 0; M[v].cap = 0;
     }
 }
 
@@ -137,16 +139,15 @@ static void check_storage(int v, const char *when)
     size_t i;
     MC_CHECK(PC09, cstl_vector_size(x) == M[v].size, "%s: vector %d reports size %zu, reference %zu", when, v, cstl_vector_size(x), M[v].size);
     MC_CHECK(PC09, cstl_vector_capacity(x) >= cstl_vector_size(x), "%s: vector %d capacity %zu < size %zu", when, v, cstl_vector_capacity(x), cstl_vector_size(x));
-    MC_CHECK(PC09, x->elem.size == M[v].es, "%s: vector %d element size became %zu (reference %zu)", when, v, x->elem.size, M[v].es);
     if (mc_branch_dead) return;
     if (cstl_vector_capacity(x) > 0 || cstl_vector_size(x) > 0) {
         shim_blk *b = shim_find(cstl_vector_data(x));
-        unsigned __int128 need = ((unsigned __int128)cstl_vector_capacity(x) + 1) * x->elem.size;
+        unsigned __int128 need = ((unsigned __int128)cstl_vector_capacity(x) + 1) * M[v].es;
         MC_CHECK(PC09, b != NULL && b->p == cstl_vector_data(x), "%s: vector %d (size %zu, capacity %zu) data pointer is not the start of a live allocation", when, v, cstl_vector_size(x), cstl_vector_capacity(x));
-        if (b) MC_CHECK(PC09, (unsigned __int128)b->sz >= need, "%s: vector %d reports capacity %zu but its allocation has %zu bytes (needs (capacity+1)*%zu)", when, v, cstl_vector_capacity(x), b->sz, x->elem.size);
+        if (b) MC_CHECK(PC09, (unsigned __int128)b->sz >= need, "%s: vector %d reports capacity %zu but its allocation has %zu bytes (needs (capacity+1)*%zu)", when, v, cstl_vector_capacity(x), b->sz, M[v].es);
         if (mc_branch_dead) return;
         for (i = 0; i < M[v].size; i++)
-            MC_CHECK(PC09, stamped((char *)cstl_vector_data(x) + i * x->elem.size, M[v].vals[i], x->elem.size), "%s: vector %d element %zu lost its bytes", when, v, i);
+            MC_CHECK(PC09, stamped((char *)cstl_vector_data(x) + i * M[v].es, M[v].vals[i], M[v].es), "%s: vector %d element %zu lost its bytes", when, v, i);
     }
 }
 
@@ -156,15 +157,15 @@ static void w_apply(mc_op_t o)
     struct cstl_vector *x = &V[v];
     switch (OC(o)) {
     case O_RESERVE: {
-        struct cstl_vector before = *x; int sat;
+        const void *d0 = cstl_vector_data(x); size_t s0 = cstl_vector_size(x), c0 = cstl_vector_capacity(x); int sat;
         n = argval(v, OA(o)); sat = satisfiable(n, M[v].es);
         if (!sat) MC_COUNT(K_RESERVE_UNSAT);
         if (sat && n > M[v].cap && M[v].size > 0) MC_COUNT(K_REALLOC_KEEP);
         SHIM_CALL(ab, cstl_vector_reserve(x, n));
         if (ab) break;
         if (!sat || n <= M[v].cap) {
-            MC_CHECK(PC09, x->elem.base == before.elem.base && x->count == before.count && x->cap == before.cap, "reserve(%s=%zu) on vector %d (capacity %zu) should be a quiet no-op but changed data/size/capacity to %p/%zu/%zu",
-                     argname[OA(o)], n, v, before.cap, x->elem.base, x->count, x->cap);
+            MC_CHECK(PC09, cstl_vector_data(x) == d0 && cstl_vector_size(x) == s0 && cstl_vector_capacity(x) == c0, "reserve(%s=%zu) on vector %d (capacity %zu) should be a quiet no-op but changed data/size/capacity to %s/%zu/%zu",
+                     argname[OA(o)], n, v, c0, cstl_vector_data(x) == d0 ? "(same)" : "another address", cstl_vector_size(x), cstl_vector_capacity(x));
         } else {
             MC_CHECK(PC09, cstl_vector_capacity(x) >= n, "reserve(%zu) on vector %d left capacity %zu", n, v, cstl_vector_capacity(x));
         }
@@ -192,6 +193,7 @@ static void w_apply(mc_op_t o)
         }
         if (ab) break;
         /* elements entering [0,size): constructed once each (or stamped by the caller when there is no constructor) */
+        if (!M[v].xt) MC_CHECK(PC09, xt_nctor == 0 && xt_ndtor == 0 && xt_bad == 0, "vector %d was initialised without constructor/destructor but %d calls were made", v, xt_nctor + xt_ndtor + xt_bad);
         if (M[v].xt) {
             size_t expc = n > old ? n - old : 0, expd = old > n ? old - n : 0; int seen[64] = { 0 };
             MC_CHECK(PC09, xt_bad == 0, "constructor/destructor called with a pointer outside the vector or a wrong private pointer");
@@ -225,7 +227,7 @@ static void w_apply(mc_op_t o)
         for (i = 0; i < M[v].size / 2; i++) { int t = M[v].vals[i]; M[v].vals[i] = M[v].vals[M[v].size - 1 - i]; M[v].vals[M[v].size - 1 - i] = t; }
         break;
     case O_SWAP: {
-        struct { size_t es; int xt; size_t size, cap; int vals[MAXSZ + 2]; } t;
+        struct { size_t es; int xt, ck; size_t size, cap; int vals[MAXSZ + 2]; } t;
         if (v == 1) { SHIM_CALL(ab, cstl_vector_swap(&V[0], &V[0])); break; }      /* swapping a vector with itself changes nothing */
         if (M[0].es != M[1].es || M[0].xt != M[1].xt) MC_COUNT(K_SWAP_DIFFERENT);
         SHIM_CALL(ab, cstl_vector_swap(&V[0], &V[1]));
@@ -244,7 +246,6 @@ static void w_audit(void)
         static const int which[] = { 0, 1, 2, 3, 4, 5, 6, 7 };
         check_storage(v, "state audit");
         if (mc_branch_dead) return;
-        MC_CHECK(PC09, (V[v].elem.xtor.cons != NULL) == M[v].xt && (V[v].elem.xtor.dest != NULL) == M[v].xt, "vector %d %s a constructor/destructor, reference says it %s", v, V[v].elem.xtor.cons ? "has" : "lacks", M[v].xt ? "has" : "lacks");
         for (k = 0; k < 8; k++) {
             /* 5..7: indices whose byte offset i*element_size wraps around to a small value */
             size_t wrap = SIZE_MAX / M[v].es + 1;
@@ -267,8 +268,9 @@ static void w_canon(void)
 {
     int v; size_t i;
     for (v = 0; v < 2; v++) {
-        KB_C('V'); KB_U(V[v].elem.size); KB_C(V[v].elem.xtor.cons ? 'c' : '-'); KB_C(V[v].elem.xtor.dest ? 'd' : '-'); KB_C(V[v].elem.base ? 'b' : '0');
-        KB_U(V[v].count); KB_C('/'); KB_U(V[v].cap); KB_C(':');
+        KB_C('V'); KB_U(M[v].es); KB_C(M[v].xt ? 'x' : '-'); KB_U((unsigned)M[v].ck);
+        KB_MEM(&V[v], sizeof V[v], NULL);                     /* every byte of the object, fields unnamed: hidden members are part of the state */
+        KB_C('|'); KB_U(cstl_vector_size(&V[v])); KB_C('/'); KB_U(cstl_vector_capacity(&V[v])); KB_C(':');
         for (i = 0; i < M[v].size && i < MAXSZ + 2; i++) KB_U((unsigned)M[v].vals[i]);
     }
 }
